@@ -15,6 +15,7 @@ import (
 )
 
 type MM struct {
+	hornerNext int
 	*M
 	F [4]*field.Element
 }
@@ -142,6 +143,25 @@ func genC11(m *M, budget int) {
 			f.emitF("MSswu", kv{"a", 1}, kv{"x", x}, kv{"y", y})
 			r := secp256k1.IsogenySecp256k13iso(q)
 			f.emitF("MIso", kv{"x", x}, kv{"y", y}, kv{"res", f.resultObs(r)})
+			if j == 9 && len(f.horner()) > 0 {
+				// points of E' at which a PARTIAL sum of one of the four isogeny polynomials vanishes (where a zero test
+				// placed one step early or late in the evaluation fires), reached through the map itself when a u exists
+				h := f.horner()[f.hornerNext%len(f.horner())]
+				f.hornerNext++
+				f.class("iso:partial_sum_root")
+				if h.u != nil {
+					f.setInt(0, h.u)
+					q := secp256k1.SSWU(f.F[0])
+					hx, hy := readAffine(q)
+					f.emitF("MSswu", kv{"a", 1}, kv{"x", hx}, kv{"y", hy})
+					f.emitF("MIso", kv{"x", hx}, kv{"y", hy}, kv{"res", f.resultObs(secp256k1.IsogenySecp256k13iso(q))})
+				} else if secp256k1.VerifAccessor {
+					e := secp256k1.NewElement()
+					xl, yl, zl := secp256k1.VerifLimbs(e)
+					*xl, *yl, *zl = montLimbs(h.x, bigP), montLimbs(h.y, bigP), montLimbs(one, bigP)
+					f.emitF("MIso", kv{"x", be32(h.x)}, kv{"y", be32(h.y)}, kv{"res", f.resultObs(secp256k1.IsogenySecp256k13iso(e))})
+				}
+			}
 			if secp256k1.VerifAccessor && j%5 == 4 {
 				if sx, sy := f.structuredXDenPoint(); sx != nil {
 					e := secp256k1.NewElement()
@@ -168,6 +188,101 @@ func genC11(m *M, budget int) {
 			}
 		}
 	}
+}
+
+type hornerPoint struct{ x, y, u *big.Int }
+
+var hornerMemo []hornerPoint
+var hornerDone bool
+
+func hx(s string) *big.Int { v, _ := new(big.Int).SetString(s, 16); return v }
+
+// quadRoots: the roots of a x^2 + b x + c over GF(p) (a may be 0).
+func quadRoots(a, b, c *big.Int) []*big.Int {
+	a, b, c = new(big.Int).Mod(a, bigP), new(big.Int).Mod(b, bigP), new(big.Int).Mod(c, bigP)
+	if a.Sign() == 0 {
+		if b.Sign() == 0 {
+			return nil
+		}
+		return []*big.Int{mulmod(new(big.Int).Sub(bigP, c), new(big.Int).ModInverse(b, bigP), bigP)}
+	}
+	d := mulmod(b, b, bigP)
+	d.Sub(d, mulmod(big.NewInt(4), mulmod(a, c, bigP), bigP)).Mod(d, bigP)
+	sq := new(big.Int).ModSqrt(d, bigP)
+	if sq == nil {
+		return nil
+	}
+	i2a := new(big.Int).ModInverse(new(big.Int).Mod(new(big.Int).Lsh(a, 1), bigP), bigP)
+	r1 := mulmod(new(big.Int).Mod(new(big.Int).Sub(sq, b), bigP), i2a, bigP)
+	r2 := mulmod(new(big.Int).Mod(new(big.Int).Neg(new(big.Int).Add(sq, b)), bigP), i2a, bigP)
+	return []*big.Int{r1, r2}
+}
+
+// sswuPreimages: every u with SSWU(u).x = x  (t = Z u^2 solves a quadratic in either branch of the map).
+func sswuPreimages(x *big.Int) []*big.Int {
+	var out []*big.Int
+	c := mulmod(new(big.Int).Sub(bigP, x), mulmod(isoA, new(big.Int).ModInverse(isoB, bigP), bigP), bigP) // -x A / B
+	var ts []*big.Int
+	// x = x1:  1 + 1/(t^2+t) = c   =>  (c-1)(t^2 + t) - 1 = 0
+	cm1 := new(big.Int).Mod(new(big.Int).Sub(c, one), bigP)
+	ts = append(ts, quadRoots(cm1, cm1, new(big.Int).Sub(bigP, one))...)
+	// x = t x1:  t + 1/(t+1) = c  =>  t^2 + (1-c) t + (1-c) = 0
+	omc := new(big.Int).Mod(new(big.Int).Sub(one, c), bigP)
+	ts = append(ts, quadRoots(one, omc, omc)...)
+	zi := new(big.Int).ModInverse(sswuZ, bigP)
+	for _, t := range ts {
+		if u := new(big.Int).ModSqrt(mulmod(t, zi, bigP), bigP); u != nil {
+			for _, uu := range []*big.Int{u, new(big.Int).Sub(bigP, u)} {
+				if sx, _, _ := sswuRef(uu); sx.Cmp(x) == 0 {
+					out = append(out, uu)
+				}
+			}
+		}
+	}
+	return out
+}
+
+// horner lists the points of E' whose x is a root of a leading or trailing partial sum (degree 1 or 2) of one of
+// the isogeny's numerator / denominator polynomials, with a u that the simplified SWU map sends there if one exists.
+func (f *MM) horner() []hornerPoint {
+	if hornerDone {
+		return hornerMemo
+	}
+	hornerDone = true
+	polys := [][]*big.Int{ // coefficients, highest degree first
+		{hx("8e38e38e38e38e38e38e38e38e38e38e38e38e38e38e38e38e38e38daaaaa88c"), hx("534c328d23f234e6e2a413deca25caece4506144037c40314ecbd0b53d9dd262"), hx("07d3d4c80bc321d5b9f315cea7fd44c5d595d2fc0bf63b92dfff1044f17c6581"), hx("8e38e38e38e38e38e38e38e38e38e38e38e38e38e38e38e38e38e38daaaaa8c7")},
+		{big.NewInt(1), hx("edadc6f64383dc1df7c4b2d51b54225406d36b641f5e41bbc52a56612a8c6d14"), hx("d35771193d94918a9ca34ccbb7b640dd86cd409542f8487d9fe6b745781eb49b")},
+		{hx("2f684bda12f684bda12f684bda12f684bda12f684bda12f684bda12f38e38d84"), hx("29a6194691f91a73715209ef6512e576722830a201be2018a765e85a9ecee931"), hx("c75e0c32d5cb7c0fa9d0a54b12a0a6d5647ab046d686da6fdffc90fc201d71a3"), hx("4bda12f684bda12f684bda12f684bda12f684bda12f684bda12f684b8e38e23c")},
+		{big.NewInt(1), hx("6484aa716545ca2cf3a70c3fa8fe337e0a3d21162f0d6299a7bf8192bfd2a76f"), hx("7a06534bb8bdb49fd5e9e6632722c2989467c1bfc8e8d978dfb425d2685c2573"), hx("fffffffffffffffffffffffffffffffffffffffffffffffffffffffefffff93b")},
+	}
+	zero := big.NewInt(0)
+	xs := []*big.Int{zero}
+	for _, c := range polys {
+		d := len(c)
+		xs = append(xs, quadRoots(zero, c[0], c[1])...)     // leading linear part
+		xs = append(xs, quadRoots(c[0], c[1], c[2])...)     // leading quadratic part
+		xs = append(xs, quadRoots(zero, c[d-2], c[d-1])...) // trailing linear part
+		xs = append(xs, quadRoots(c[d-3], c[d-2], c[d-1])...)
+	}
+	seen := map[string]bool{}
+	for _, x := range xs {
+		if seen[x.String()] {
+			continue
+		}
+		seen[x.String()] = true
+		y := new(big.Int).ModSqrt(gIso(x), bigP)
+		if y == nil {
+			continue
+		}
+		us := sswuPreimages(x)
+		if len(us) == 0 {
+			hornerMemo = append(hornerMemo, hornerPoint{x, y, nil}, hornerPoint{x, new(big.Int).Sub(bigP, y), nil})
+		}
+		for _, u := range us {
+			hornerMemo = append(hornerMemo, hornerPoint{x: x, u: u})
+		}
+	}
+	return hornerMemo
 }
 
 // solveTv2 returns u with Z^2 u^4 + Z u^2 = w for a structured w, or nil.
